@@ -637,6 +637,109 @@ func runC20(r *core.Run) {
 			}
 		}
 	}
+	// ---------------- operands of an element type a specialised engine is not made for: what the default engine refuses
+	// the specialised engine refuses too (it must not read the storage as if it held its own element type), and what it
+	// accepts equals the default engine's result
+	for _, es := range engines()[1:] {
+		for _, da := range []ref.DT{ref.Float32, ref.Float64, ref.Int32, ref.Int64} {
+			for _, db := range []ref.DT{ref.Float32, ref.Float64, ref.Int32, ref.Int64} {
+				if da.Name == es.dts[0].Name && db.Name == es.dts[0].Name {
+					continue
+				}
+				if !r.Take() {
+					continue
+				}
+				for _, op := range []string{"Inner", "MatVecMul", "MatMul", "Outer", "Add", "Mul", "FMA"} {
+					for _, n := range []int{2, 3} {
+						es, da, db, op, n := es, da, db, op, n
+						id := fmt.Sprintf("C20|foreign|%s|%s|a=%s|b=%s|n=%d", es.name, op, da.Name, db.Name, n)
+						if r.ReplayCase != "" && id != r.ReplayCase {
+							continue
+						}
+						r.Case(id, true, func() *core.Fail {
+							sa, sb := []int{n}, []int{n}
+							switch op {
+							case "MatVecMul":
+								sa = []int{n, n}
+							case "MatMul", "Add", "Mul", "FMA":
+								sa, sb = []int{n, n}, []int{n, n}
+							}
+							type obs struct {
+								cls  string
+								res  string
+								a, b []interface{}
+							}
+							run := func(e tensor.Engine) (o obs, ok bool) {
+								tensor.VerifResetPools()
+								A, rootA, _, ok1 := mkEng(da, e, sa, dotVals(da, ref.Prod(sa), "int", 1), "C")
+								B, rootB, _, ok2 := mkEng(db, e, sb, dotVals(db, ref.Prod(sb), "int", 2), "C")
+								if !ok1 || !ok2 {
+									return o, false
+								}
+								var res interface{}
+								oc := call(func() (err error) {
+									switch op {
+									case "Inner":
+										res, err = A.Inner(B)
+									case "MatVecMul":
+										res, err = A.MatVecMul(B)
+									case "MatMul":
+										res, err = A.MatMul(B)
+									case "Outer":
+										res, err = A.Outer(B)
+									case "Add":
+										res, err = A.Add(B)
+									case "Mul":
+										res, err = A.Mul(B)
+									case "FMA":
+										C, _, _, ok3 := mkEng(da, e, sa, dotVals(da, ref.Prod(sa), "int", 3), "C")
+										if !ok3 {
+											return fmt.Errorf("no third operand")
+										}
+										res, err = tensor.FMA(A, B, C)
+									}
+									return
+								})
+								o.cls = oc.Class
+								if oc.Class == "ok" {
+									if t, isT := res.(*tensor.Dense); isT {
+										if t == nil {
+											o.res = "nil"
+										} else {
+											o.res = fmt.Sprint(t.Dtype(), t.Shape(), t.Data())
+										}
+									} else if t, isT := res.(tensor.Tensor); isT {
+										o.res = fmt.Sprint(t.Dtype(), t.Shape(), t.Data())
+									} else {
+										o.res = fmt.Sprintf("%T %v", res, res)
+									}
+								}
+								o.a, o.b = rootVals(rootA), rootVals(rootB)
+								return o, true
+							}
+							std, ok1 := run(tensor.StdEng{})
+							sp, ok2 := run(es.e)
+							if !ok1 || !ok2 {
+								return nil
+							}
+							r.Op(2)
+							r.Outcome("foreign:" + es.name + ":" + std.cls + "/" + sp.cls)
+							if std.cls != "ok" && sp.cls == "ok" {
+								return core.F("config-divergence", "accepted", "%s of a %s and a %s tensor is refused by StdEng but %s computes %s from them", op, da.Name, db.Name, es.name, sp.res)
+							}
+							if std.cls == "ok" && sp.cls == "ok" && std.res != sp.res {
+								return core.F("config-divergence", "result", "%s of a %s and a %s tensor: %s gives %s, StdEng %s", op, da.Name, db.Name, es.name, sp.res, std.res)
+							}
+							if !sameVals(std.a, sp.a) || !sameVals(std.b, sp.b) {
+								return core.F("config-divergence", "operands", "%s of a %s and a %s tensor leaves the operands different under %s", op, da.Name, db.Name, es.name)
+							}
+							return nil
+						})
+					}
+				}
+			}
+		}
+	}
 	// ---------------- transposes (the in-place build replaces the algorithm)
 	tshapes := [][]int{{2, 3}, {3, 2}, {2, 3, 2}, {2, 2, 2}, {3, 1, 2}, {2, 3, 4}, {2, 2, 2, 2}, {2, 1, 3, 2}}
 	for _, d := range ref.W6 {
